@@ -662,6 +662,17 @@ def build_fgg(fggs, spec, semiring='real', dtype=None, *, explicit_ids=False, ru
     given_ids = {'n': [], 'e': []}
     for ri in order:
         r = spec['rules'][ri]
+        if r.get('dup_of') is not None and r['dup_of'] in rule_objs:
+            # the same rule a second time (rules are a multiset): a copy with identical node and edge ids
+            j = r['dup_of']
+            rule = rule_objs[j].copy()
+            fgg.add_rule(rule)
+            rule_objs[ri] = rule
+            node_objs[ri] = node_objs[j]
+            for (rj, ei), e in list(edge_objs.items()):
+                if rj == j:
+                    edge_objs[ri, ei] = e
+            continue
         g = fggs.Graph()
         norder = list(range(len(r['nodes']))) if not node_orders else list(node_orders[ri])
         nodes = {}
